@@ -54,6 +54,8 @@ def find_input(res, pid, failing):
 def run(pid, tier, seed):
     res = driver.Result(pid, tier, seed)
     res.trusted = list(TRUSTED)
+    res.lemmas = [{"id": "L1", "statement": "filter_ne on a duplicate-free list holding x at position k = remove_at k",
+                   "status": driver.lean_status("L1_filter_ne.lean")}]
     collect(res)
     res.obligations = driver.select(res.obligations, pid)
     if not res.obligations and not res.struct:
